@@ -5,21 +5,39 @@ import vlib, kapi
 
 
 class P11:
-    def __init__(self, p11drv, lib, mechanisms=None, backend='file', umask=None, env_extra=None, keep=False):
-        self.dir = vlib.mktmp()
-        self.conf = vlib.write_conf(self.dir, backend=backend, mechanisms=mechanisms, umask=umask)
+    def __init__(self, p11drv, lib, mechanisms=None, backend='file', umask=None, env_extra=None, keep=False, reuse=None):
+        if reuse:
+            self.dir = reuse
+            keep = True
+            self.conf = os.path.join(reuse, 'softhsm2.conf')
+            if not os.path.exists(self.conf):
+                self.conf = vlib.write_conf(self.dir, backend=backend, mechanisms=mechanisms, umask=umask)
+        else:
+            self.dir = vlib.mktmp()
+            self.conf = vlib.write_conf(self.dir, backend=backend, mechanisms=mechanisms, umask=umask)
         env = dict(os.environ)
         env['SOFTHSM2_CONF'] = self.conf
         if env_extra:
             env.update(env_extra)
         self.p = subprocess.Popen([p11drv, lib, '-'], stdin=subprocess.PIPE, stdout=subprocess.PIPE, text=True, bufsize=1, env=env)
         self.trace = []
+        self.timeout = 120
         self.keep = keep
 
     def op(self, line):
-        self.p.stdin.write(line + '\n')
-        self.p.stdin.flush()
-        out = self.p.stdout.readline()
+        try:
+            self.p.stdin.write(line + '\n')
+            self.p.stdin.flush()
+            import select
+            rd, _, _ = select.select([self.p.stdout], [], [], self.timeout)
+            out = self.p.stdout.readline() if rd else 'HANG'
+        except (BrokenPipeError, OSError):
+            out = ''
+        if out == 'HANG':
+            self.p.kill()
+            r = {'rv': 'HANG', 'line': ''}
+            self.trace.append((line, r))
+            return r
         if not out.strip():
             r = {'rv': 'DIED', 'line': out}
         else:
@@ -29,6 +47,9 @@ class P11:
                 r = {'rv': '?', 'line': out}
         self.trace.append((line, r))
         return r
+
+    def alive(self):
+        return self.p.poll() is None
 
     def rv(self, line):
         r = self.op(line)
